@@ -116,3 +116,21 @@ chk('C11', 'other',
     'any size. (c) real pot_complement on cell tables with #n chains proven equal to the reference with #n := not region(n).',
     'TatSu shim (DESIGN 1.1); bounded text family; known finding F16 (#( ... #n ... ) rejected) in known_findings.json',
     'real parser on enumerated strings + z3 Boolean equivalence over all sense assignments; inductive De Morgan step', 'DESIGN.md 4/C11')
+
+chk('C10', 'other',
+    'Material cards with random ZAIDs over Z = 1..118 (any A, library suffixes, A=000, keyword entries at any position) and SYMBOLIC fraction and '
+    'density magnitudes (signs enumerated) through the real composition chain under symbolic execution; the written COMPOSITION block is read '
+    'back and z3 proves for all magnitudes: DENSITY blocks carry |rho| and the absolute fractions with NB_ATOM iff the entries are positive; '
+    'POINT_WISE concentrations satisfy conc_i*sum(f) = f_i*rho; nuclide names/order are compared with an independent periodic table (118 '
+    'entries, enumerated); mixed-sign cards must raise on every path.',
+    'reals for floats; T4 nuclide naming SYMBOL+A / SYMBOL-NAT; atom density with mass fractions is outside the claim (converter warns: unsupported)',
+    'symbolic execution of the real Python code + z3 on the written amounts', 'DESIGN.md 4/C10')
+
+chk('C17', 'fault_enumeration',
+    'Every fault class of the property (m != 1 on a surface TR / TRCL / FILL transformation / unused TR card, lattice without or with wrong --lattice '
+    'ranges, FILL array too short / too long, ranges of the wrong dimensionality, wrong parameter counts for every elementary mnemonic and macrobody, '
+    'unknown mnemonics, facet index beyond the body, IMP cards of unequal length, mixed-sign fractions, malformed --lattice strings) is injected into '
+    'valid decks; the real pipeline is executed symbolically (m is a symbolic real != 1) and every feasible path must end in an exception; a path that '
+    'finishes is replayed on the unpatched converter.',
+    'any exception escaping main.conversion counts as "the run ends with an error"; the wording of the message is not checked; ARB counts not enumerated',
+    'fault enumeration with symbolic execution of the real pipeline (solver-decided value class for m)', 'DESIGN.md 4/C17')
